@@ -1,6 +1,6 @@
 ---------------------------- MODULE WriteCart ----------------------------
 EXTENDS Integers, Sequences, FiniteSets, TLC
-CONSTANTS Bounds
+CONSTANTS Bounds, Fixed       \* Fixed = TRUE: the repaired index arithmetic; FALSE: the arithmetic of the pinned tree
 MCBounds == <<0, 4, 7, 9, 11, 14>>
 NReg == Len(Bounds) - 1
 Top == Bounds[Len(Bounds)]
@@ -18,17 +18,25 @@ PWrite(regs, addr, data) ==
 \* ---- Layer I: game.py write_cart_data, one region ----
 IStep(sec, start_a, end_a, addr, data) ==
   LET n == Len(data) IN
-  IF addr > end_a \/ addr + n < start_a THEN sec
-  ELSE LET ds == IF addr > start_a THEN addr - start_a ELSE 0
-           de == IF addr + n < end_a THEN addr + n - start_a ELSE end_a
-           ts == IF addr > start_a THEN 0 ELSE start_a - addr
-           te == IF addr + n < end_a THEN n ELSE 0 - (addr + n - end_a)
-       IN PyAssign(sec, ds, de, PySlice(data, ts, te))
+  IF Fixed THEN
+    IF addr >= end_a \/ addr + n <= start_a THEN sec
+    ELSE LET ds == IF addr > start_a THEN addr - start_a ELSE 0
+             de == IF addr + n < end_a THEN addr + n - start_a ELSE end_a - start_a
+             ts == IF addr > start_a THEN 0 ELSE start_a - addr
+             te == IF addr + n < end_a THEN n ELSE end_a - addr
+         IN PyAssign(sec, ds, de, PySlice(data, ts, te))
+  ELSE
+    IF addr > end_a \/ addr + n < start_a THEN sec
+    ELSE LET ds == IF addr > start_a THEN addr - start_a ELSE 0
+             de == IF addr + n < end_a THEN addr + n - start_a ELSE end_a
+             ts == IF addr > start_a THEN 0 ELSE start_a - addr
+             te == IF addr + n < end_a THEN n ELSE 0 - (addr + n - end_a)
+         IN PyAssign(sec, ds, de, PySlice(data, ts, te))
 IWrite(regs, addr, data) == [r \in 1..NReg |-> IStep(regs[r], Bounds[r], Bounds[r+1], addr, data)]
 VARIABLES regs, last
 Init == regs = [r \in 1..NReg |-> [k \in 1..(Bounds[r+1] - Bounds[r]) |-> 0]] /\ last = <<>>
 Write(addr, n) == /\ addr + n <= Top
-                  /\ LET data == [k \in 1..n |-> 1] IN
+                  /\ LET data == [k \in 1..n |-> k] IN
                        /\ regs' = IWrite(regs, addr, data)
                        /\ last' = <<addr, n, PWrite(regs, addr, data)>>
 Next == \E addr \in 0..Top, n \in 0..Top : Write(addr, n)
